@@ -267,3 +267,26 @@ func manyLists(x func(int, func(int))) {
 	a8(8)
 	old()
 }
+
+func job() {
+	setup(1)
+	setup(2)
+	setup(3)
+	setup(4)
+	begin(a)
+	step(1)
+	step(2)
+	step(3)
+	step(4)
+	end(b)
+	begin(c)
+	step(1)
+	step(2)
+	step(3)
+	step(4)
+	end(c)
+}
+
+func longArgs(a, b int) {
+	check(101, 102, 103, 104, 105, 106, 107, 108, 109, 110, 111, 112, 113, 114, a, 1, 2, 3, 4, 5, 6, 7, 8, 9, 10, 11, 12, 13, 14, 15, 16, b, 1, 2, 3, 4, 5, 6, 7, 8, 9, 10, 11, 12, 13, 14, 15, 16, b, a, 1, 2, 3, 4, 5, 6, 7, 8, 9, 10, 11, 12, 13, 14, 15, 16, a)
+}
